@@ -2,7 +2,7 @@
    Statements only.  All statements quantify over every configuration (any number of runnables,
    any capability mix, both Stop styles, any Run-exit behaviour) and every schedule. *)
 From Coq Require Import List Bool Arith.
-From GS Require Import LTS Supervisor SupAccept SupProps SupInv SupStop SupTrig.
+From GS Require Import LTS Supervisor SupAccept SupProps SupInv SupStop SupTrig SupGate SupOnce.
 Import ListNotations.
 
 (* The Stop() calls and returns of every execution are a prefix of
@@ -18,7 +18,29 @@ Theorem C01_not_before : forall c ls s,
   run (step c) (init c) ls = Some s -> c01_not_before c (obs_trace obs ls) = true.
 Proof. exact sup_c01_not_before. Qed.
 
+(* Once Run() has returned, every runnable whose Run was invoked has been stopped exactly once. *)
+Theorem C01_exactly_once : forall c ls s,
+  run (step c) (init c) ls = Some s -> c01_exactly_once c (obs_trace obs ls) = true.
+Proof. exact sup_c01_exactly_once. Qed.
+
+(* The supervisor does not cancel the runnables' contexts until every Stop() has returned: whenever
+   its own cancel() has been called, the complete stop sequence Stop(k-1) .. Stop(0), with all
+   returns, over all k started runnables is already in the history. *)
+Theorem C01_cancel_after : forall c s,
+  reachable_sup c s -> own_cancel s = true ->
+  stop_evs (rev (hist s)) = canon_stops (launched s).
+Proof. exact sup_c01_cancel_after. Qed.
+
+(* Only started runnables are stopped, and nothing is started once shutdown has begun (launch
+   gate, /repo commit 00876a0): the started runnables are always a prefix of the registration order. *)
+Theorem C01_started_prefix : forall c s,
+  reachable_sup c s -> is_prefix_k (rn s) (launched s).
+Proof. intros c s H. exact (ip_prefix _ _ (InvPre_reachable c s H)). Qed.
+
 Print Assumptions C01_order.
+Print Assumptions C01_exactly_once.
+Print Assumptions C01_cancel_after.
+Print Assumptions C01_started_prefix.
 Print Assumptions C01_not_before.
 
 Definition c01_cfg : config :=
